@@ -451,6 +451,13 @@ def obligations(tier, seed):
          "without a permit the request gets the 429 block and nothing else happens (no connection state, no RPC service, no task, no call); with a permit, that permit is the one put into "
          "this connection's state, which goes into the spawned WebSocket task or into the HTTP response future - or is dropped on return when nothing is served",
          "try_acquire Some / None x upgrade request or not x handshake ok / failed x protocol switches; every path", "admission")
+    from . import tryrecv as _tr
+    bt, violt, reacht, badt = _tr.obligations(srv, "ticks")
+    emit("order:try_recv:silent-peer-is-closed", "order", bt, violt, {k: v for k, v in reacht.items() if k.startswith("tick")}, badt,
+         "server-side close of a silent WebSocket peer (what frees its slot): with pings configured every tick asks whether the time since the last activity exceeds inactive_limit; "
+         "each such tick counts one failure and the receive step ends with ConnectionClosed exactly at the tick on which the count reaches max_failures",
+         "every outcome of the combined future over up to three loop rounds; any ping configuration, failure count below 2^62 and idle verdict per tick", "try-recv-ticks",
+         replay=dict(scenario="c11_inactive_peer", vars={}, fixed={}, region=z3.BoolVal(True)))
     b, viol, reach, bad = _http_block(srv)
     emit("order:http-response-future:permit-held-until-answered", "order", b, viol, reach, bad,
          "the HTTP response future - the one hyper drops when the peer goes away - processes the call itself (no task of its own) and drops the connection state exactly once, only "
